@@ -232,6 +232,16 @@ func runC03(env *Env, tier string) {
 			break
 		}
 		p.OutSeq = a.engT()
+		if ch.Chance("operatorskipsnumbers", 1, 12) {
+			// an operator moves the next outbound number forward (public API): the numbers in between are
+			// used up, nothing is stored under them
+			k := 1 + ch.Choose("skippednumbers", 5)
+			if err := quickfix.SetNextSenderMsgSeqNum(s.E.SID, a.engS()+k); err != nil {
+				env.Fatalf("SetNextSenderMsgSeqNum: %v", err)
+			}
+			env.Note("operator set the next outbound number to %d", a.engS())
+			env.Stat("probe_sender_number_moved_forward")
+		}
 		S := a.engS()
 		last := S - 1
 		// observed history: what the engine itself saved, per number (current epoch)
